@@ -117,8 +117,7 @@ def expected(desc, fmt):
                 dd["min"], dd["max"] = dstr(d["min"]), dstr(d["max"])
             if d["type"] == "ENUM":
                 dd["values"] = list(d["values"])
-            if fmt != "json":        # the JSON format as shipped carries definitions without defaults on the reading side
-                dd["default"] = attr_expected(defs, d["name"], d["default"]) if d.get("default") is not None else None
+            dd["default"] = attr_expected(defs, d["name"], d["default"]) if d.get("default") is not None else None
             out["attr_defs"][d["name"]] = dd
         if "net" in env["attributes"]:
             out["net_attributes"] = {k: attr_expected(defs, k, v) for k, v in desc["net_attributes"].items()}
@@ -161,6 +160,10 @@ def expected(desc, fmt):
                 s["comment"] = sg.get("comment") or None
             if "signal" in env["attributes"]:
                 s["attributes"] = {k: attr_expected(defs, k, v) for k, v in sg["attributes"].items()}
+            if env.get("sym_switches") and not (m and m["role"] == "multiplexer"):
+                x = sg.get("sym") or {}
+                s["sym"] = dict(long_name=x.get("long_name"), decimals=None if "decimals" not in x else str(x["decimals"]),
+                                start_value=dstr(x.get("start_value", 0)))
             f["signals"][name] = s
         out["frames"]["%d_%d" % (fr["id"], int(fr["extended"]))] = f
     return out
@@ -199,11 +202,10 @@ def observed(db, desc, fmt):
                     o["min"], o["max"] = dstr(getattr(d, "min", None)), dstr(getattr(d, "max", None))
                 if d.type == "ENUM":
                     o["values"] = list(d.values)
-                if fmt != "json":
-                    if d.defaultValue is None:
-                        o["default"] = None
-                    else:
-                        o["default"] = attr_observed({k: dict(type=d.type)}, k, d.defaultValue)
+                if d.defaultValue is None:
+                    o["default"] = None
+                else:
+                    o["default"] = attr_observed({k: dict(type=d.type)}, k, d.defaultValue)
                 out["attr_defs"][k] = o
         if "net" in env["attributes"]:
             out["net_attributes"] = {k: attr_observed(defs, k, v) for k, v in db.attributes.items() if k not in own["net"]}
@@ -244,6 +246,9 @@ def observed(db, desc, fmt):
                 s["comment"] = sg.comment or None
             if "signal" in env["attributes"]:
                 s["attributes"] = {k: attr_observed(defs, k, v) for k, v in sg.attributes.items() if k not in own["signal"]}
+            if env.get("sym_switches") and not sg.is_multiplexer:
+                s["sym"] = dict(long_name=sg.attributes.get("LongName"), decimals=sg.attributes.get("DisplayDecimalPlaces"),
+                                start_value=dstr(sg.initial_value))
             if sg.name in f["signals"]:
                 f.setdefault("duplicate_signal_names", []).append(sg.name)
             f["signals"][sg.name] = s
@@ -292,26 +297,35 @@ def _canon_attr_value(v):
         return "str:" + str(v)
 
 
-def metamorphic_form(db):
+def metamorphic_form(db, fmt=None):
     """matgen.normal_form without what a format does not describe (file order of frames/signals) and with numeric-looking
     attribute texts and define ranges compared by value (canmatrix keeps attribute values as the file's text)."""
     nf = copy.deepcopy(matgen.normal_form(db))
+    # SYM: the section a frame stands in and the Title line are content of their own (varied by the writer), not lexical freedom
+    # likewise the attributes an ARXML reader derives from element names (CompuMethodName, PduName, ...)
+    drop = READER_OWN_ATTRS.get(fmt, {"frame": set(), "signal": set(), "ecu": set(), "net": set()})
+    for cat, obj in (("global_defines", "net"), ("ecu_defines", "ecu"), ("frame_defines", "frame"), ("signal_defines", "signal")):
+        for k in list(nf["defines"][cat]):
+            if k in drop[obj]:
+                del nf["defines"][cat][k]
     nf.pop("frame_order", None)
     for f in nf["frames"].values():
         f.pop("signal_order", None)
         f["receivers"] = sorted(f["receivers"])
         f["transmitters"] = sorted(f["transmitters"])
-        f["attributes"] = {k: _canon_attr_value(v) for k, v in (f.get("attributes") or {}).items()}
+        f["attributes"] = {k: _canon_attr_value(v) for k, v in (f.get("attributes") or {}).items() if k not in drop["frame"]}
         for s in f["signals"].values():
-            s["attributes"] = {k: _canon_attr_value(v) for k, v in (s.get("attributes") or {}).items()}
+            s["attributes"] = {k: _canon_attr_value(v) for k, v in (s.get("attributes") or {}).items() if k not in drop["signal"]}
     for e in nf["ecus"].values():
-        e["attributes"] = {k: _canon_attr_value(v) for k, v in e["attributes"].items()}
-    nf["attributes"] = {k: _canon_attr_value(v) for k, v in nf["attributes"].items()}
+        e["attributes"] = {k: _canon_attr_value(v) for k, v in e["attributes"].items() if k not in drop["ecu"]}
+    nf["attributes"] = {k: _canon_attr_value(v) for k, v in nf["attributes"].items() if k not in drop["net"]}
     for cat in nf["defines"].values():
         for k, d in cat.items():
             toks = str(d["definition"]).split()
             if d["type"] in ("INT", "HEX", "FLOAT") and len(toks) == 3:
                 d["definition"] = " ".join([toks[0]] + [_canon_attr_value(t) for t in toks[1:]])
+            if d["type"] == "ENUM":
+                d["definition"] = "ENUM " + ",".join(d["values"] or [])      # blanks between ENUM and its list are not content
             if d["default"] is not None and d["type"] in ("INT", "HEX", "FLOAT"):
                 d["default"] = _canon_attr_value(d["default"])
     return nf
